@@ -505,6 +505,32 @@ def adversarial_documents(rng, desc, n):
             for lab, parts in (("same-key-object-then-abstract-args", (a2, b2)), ("same-key-abstract-then-object-args", (b2, a2))):
                 out.append((lab, "{ %s%s { __typename %s %s } }" % (q["name"], req_args(q), parts[0], parts[1]), {}))
         break
+    # untyped inline fragments: under an ABSTRACT-typed field, a field whose type IMPLEMENTS that abstract type contains an
+    # untyped inline fragment; then, one level up (in the abstract type's own selection set), another untyped inline
+    # fragment selects implementation-only fields. A type-info stack that leaks the inner type would validate them.
+    for it in desc["types"]:
+        if it["kind"] != "interface":
+            continue
+        impls = {o["name"]: o for o in desc["types"] if o["kind"] == "object" and it["name"] in o.get("interfaces", [])}
+        qI = [f for f in rf if ty_base(f["type"]) == it["name"]]
+        inner = [f for f in it["fields"] if ty_base(f["type"]) in impls
+                 and not any(a["type"][0] == "nonNull" and a.get("default") is None for a in f.get("args") or [])]
+        if not qI or not inner:
+            continue
+        fin = rng.choice(inner)
+        o = impls[ty_base(fin["type"])]
+        own = [f for f in o["fields"] if not any(g["name"] == f["name"] for g in it["fields"])
+               and not any(a["type"][0] == "nonNull" and a.get("default") is None for a in f.get("args") or [])]
+        if not own:
+            continue
+        fi = rng.choice(qI)
+        d1 = rng.choice(["", " @include(if: true)", " @skip(if: false)"])
+        d2 = rng.choice(["", " @include(if: true)"])
+        for w in own[:2]:
+            for lb in ("...%s { __typename }" % d1, "...%s { ...%s { __typename } }" % (d1, d2)):
+                out.append(("untyped-inline-leak", "{ %s%s { __typename %s { %s } ...%s { %s%s } } }" % (
+                    fi["name"], req_args(fi), fin["name"], lb, d2, w["name"], sub(w)), {}))
+        break
     for _ in range(n):
         k = rng.randint(0, 13)
         any_f = rng.choice(rf)
